@@ -1,26 +1,47 @@
 -------------------------- MODULE Trace_BarterSystem --------------------------
 (* Trace validation of the REAL composition (SystemBuilder: engine + request    *)
-(* channel + ExecutionManager + MockExchange + account feed) against            *)
-(* BarterSystem.tla.  The engine side is observed through the audit stream and   *)
-(* the strategy (which is handed the engine state after every event):           *)
+(* channel + ExecutionManager + MockExchange + account feed + market stream)    *)
+(* against BarterSystem.tla.  The engine side is observed through the audit      *)
+(* stream and the strategy (which is handed the engine state after every event  *)
+(* and records its own on-disconnect invocations):                              *)
+(*   {"a":"Reset","exch":[exchange..]}  a new run of the real system starts; the  *)
+(*        exchanges it tracks: the traded ones (constant TRADED) and, in most    *)
+(*        runs, ONE data-only exchange (instruments indexed, no execution        *)
+(*        added) that sorts before / between / after the traded ones             *)
 (*   {"a":"SendOpen","c":cid,"x":exchange}  the engine reported an open request   *)
 (*        as sent; x = the exchange of the instrument the driver addressed       *)
 (*   {"a":"SendCancel","c":cid}    ... a cancel request as sent                  *)
+(*   {"a":"SendFail","c":cid,"x":exchange,"k":open|cancel,"why":w,"foreign":[..]}  *)
+(*        the engine reported that it could NOT hand the request to exchange x's *)
+(*        link: w = no_link (none found) | terminated | unhealthy (its manager    *)
+(*        has gone); foreign as in Quiescent                                     *)
 (*   {"a":"Process","c":cid,"kind":k,"x":exchange}  the engine processed an       *)
 (*        account event about cid stamped with exchange x, k in open_ok |        *)
 (*        open_filled | open_failed | cancel_ok | cancel_err                     *)
 (*   {"a":"Item","x":exchange}     the engine processed an account item of        *)
 (*        exchange x (the first one is the client's account snapshot)             *)
-(*   {"a":"State","post":{cid: kind},"conn":{exchange: bool},"global":bool}      *)
-(*        engine view afterwards: every order, each exchange's account-link      *)
-(*        health ("market": the market-data links, not modelled here), global    *)
-(*        connectivity - healthy exactly when every link of both kinds is        *)
-(*   {"a":"LinkDown","x":exchange}  the engine processed an account-stream        *)
-(*        disconnect notice naming x (the driver kills exchange tasks one by one)  *)
-(*   {"a":"LinkDownCount","killed":[exchange..]}  end of run: the links the driver *)
-(*        killed - each must have been noticed exactly once                       *)
-(*   {"a":"Quiescent"}             the run was left alone long enough: nothing   *)
-(*        may be outstanding and no order may still be in flight                 *)
+(*   {"a":"MktItem","x":exchange}  the engine processed a market item of x        *)
+(*   {"a":"MktDown","x":exchange,"calls":[exchange..]}  the engine processed a    *)
+(*        market-stream disconnect notice naming x; calls = the on-disconnect    *)
+(*        invocations the strategy saw during that step                          *)
+(*   {"a":"State","post":{cid: kind},"conn":{exchange: bool},"market":{..},       *)
+(*        "global":bool}  engine view afterwards: every order, each tracked      *)
+(*        exchange's account-link and market-link health, global connectivity -  *)
+(*        healthy exactly when every link of both kinds of every tracked         *)
+(*        exchange is (never, when a data-only exchange is tracked)              *)
+(*   {"a":"LinkDown","x":exchange,"calls":[..]}  the engine processed an account- *)
+(*        stream disconnect notice naming x (the driver kills exchange tasks)    *)
+(*   {"a":"LinkDownCount","killed":[exchange..],"mnotices":{exchange: n}}  end of *)
+(*        run: the links the driver killed - each must have been noticed exactly *)
+(*        once -, and the market notices it put into the market stream per       *)
+(*        exchange - each must have been processed exactly once                  *)
+(*   {"a":"Quiescent","down":[exchange..],"foreign":[exchange..]}  the run was    *)
+(*        left alone long enough: nothing may be outstanding and no order may    *)
+(*        still be in flight; down = the traded exchanges whose ExecutionManager *)
+(*        task has ended on its own, foreign = those of them that ended because  *)
+(*        they were handed a request for a key that is not theirs                *)
+(*   {"a":"Managers","down":[..],"foreign":[..]}  the same observation, made      *)
+(*        when the engine stopped before quiescence                              *)
 (* The execution manager and the exchange client are NOT observed.  Their steps  *)
 (* are placed just in time: the account event the engine processes must be the   *)
 (* answer to the OLDEST outstanding request of that kind for that id, i.e. the   *)
@@ -28,47 +49,71 @@
 (* (requests are accepted in channel order, answers may overtake one another).   *)
 (* An account event that answers no outstanding request, a request that is       *)
 (* answered twice, or one that is never answered (Quiescent) is rejected.        *)
+(* Market events: MarketItem(x) | MarketNotice(x) . EngineProcess as one step.   *)
+(* EXCH (constant) is every exchange any run may track; `present` the ones of    *)
+(* the current run.                                                              *)
 EXTENDS BarterSystem, Json, IOUtils
 
 Log == ndJsonDeserialize(IOEnv.TRACE)
 
-VARIABLES l, bad
-tvars == <<vars, l, bad>>
+VARIABLES l, bad,
+          present,   \* the exchanges the current run tracks
+          mnot       \* [EXCH -> Nat] market notices processed in the current run
+tvars == <<vars, l, bad, present, mnot>>
 
-TInit == Init /\ l = 1 /\ bad = <<>>
+TInit == Init /\ l = 1 /\ bad = <<>> /\ present = TRADED /\ mnot = [x \in EXCH |-> 0]
 Note(tags) == bad' = IF tags = {} THEN bad ELSE Append(bad, <<l, tags>>)
+SeqSet(s) == {s[j] : j \in 1..Len(s)}
 
 ReqKindOf(k) == IF k \in {"open_ok", "open_filled", "open_failed"} THEN "open" ELSE "cancel"
-ChanSet == UNION {{chan[x][j] : j \in 1..Len(chan[x])} : x \in EXCH}
+ChanSet == UNION {{chan[x][j] : j \in 1..Len(chan[x])} : x \in TRADED}
 Outstanding(c, rk) == {r \in ChanSet \cup pending : r.c = c /\ r.k = rk}
 Oldest(S) == CHOOSE r \in S : \A q \in S : r.n <= q.n
 IndexIn(r) == CHOOSE j \in 1..Len(chan[r.x]) : chan[r.x][j] = r
-KnownX(x) == x \in EXCH
+\* an exchange with an execution link
+KnownX(x) == x \in TRADED
+Keep == UNCHANGED <<present, mnot>>
 
-TSendOpen == /\ Log[l].a = "SendOpen"
+TSendOpen == /\ Log[l].a = "SendOpen" /\ Keep
              /\ LET c == Log[l].c  x == Log[l].x IN
-                IF KnownX(x) /\ orders[c] = "U" /\ sends[c] < MaxSends /\ home[c] \in {NoExch, x} /\ link[x] # "dead"
+                IF ~KnownX(x)
+                THEN \* a request reported as handed to the link of an exchange that has none
+                     UNCHANGED vars /\ Note({"wrong_exchange"})
+                ELSE IF orders[c] = "U" /\ sends[c] < MaxSends /\ home[c] \in {NoExch, x} /\ link[x] # "dead"
                 THEN EngineSendOpen(c, x) /\ Note({})
                 ELSE \* an id re-used while tracked / beyond the modelled bound: outside the model, adopt
-                     /\ KnownX(x)
                      /\ orders' = [orders EXCEPT ![c] = "OIF"]
                      /\ home' = [home EXCEPT ![c] = x]
                      /\ chan' = [chan EXCEPT ![x] = Append(@, Req("open", c, sends[c] + 1, x))]
                      /\ sends' = [sends EXCEPT ![c] = @ + 1]
-                     /\ UNCHANGED <<pending, feed, answered, link, conn>>
+                     /\ UNCHANGED <<pending, feed, answered, link, conn, mlink, mkt, mk, calls>>
                      /\ Note({"send_open_outside_model"})
-TSendCancel == /\ Log[l].a = "SendCancel"
+TSendCancel == /\ Log[l].a = "SendCancel" /\ Keep
                /\ LET c == Log[l].c IN
                   IF sends[c] > 0 /\ sends[c] < MaxSends /\ link[home[c]] # "dead"
                   THEN EngineSendCancel(c) /\ Note({})
                   ELSE /\ UNCHANGED vars
                        /\ Note({"send_cancel_outside_model"})
+\* BarterSystem has no step in which the engine fails to hand a request to the link of a TRADED
+\* exchange (its manager serves its channel for as long as the system runs): the command was handed
+\* over, the request it had to produce for that exchange was not made.  Nor has it a step in which
+\* the engine makes a request for a data-only exchange: the drivers never ask for one (the documented
+\* fatal path), so a command whose filter matched instruments that hold no order and no position made it.
+\* why = no_link: the engine found no link for the exchange; otherwise the link's channel is closed, i.e. its
+\* manager has gone - because it was handed a request for a key that is not its own (foreign: a request
+\* addressed to another exchange reached it, Routed), or for a reason of its own.
+TSendFail == /\ Log[l].a = "SendFail" /\ Keep
+             /\ UNCHANGED vars
+             /\ Note(IF ~KnownX(Log[l].x) THEN {"request_for_data_only"}
+                     ELSE IF Log[l].why = "no_link" THEN {"request_not_sent"}
+                     ELSE IF Log[l].foreign # <<>> THEN {"wrong_exchange"} ELSE {"manager_down"})
 
 \* MgrAccept^j . Answer(r) . EngineProcess, as one step
-TProcess == /\ Log[l].a = "Process"
+TProcess == /\ Log[l].a = "Process" /\ Keep
             /\ LET c == Log[l].c  k == Log[l].kind  x == Log[l].x  S == Outstanding(c, ReqKindOf(k)) IN
                \* an account item proves the link of the exchange it is stamped with alive
                /\ conn' = [y \in EXCH |-> IF y = x THEN "up" ELSE conn[y]]
+               /\ UNCHANGED <<mlink, mkt, mk>> /\ calls' = <<>>
                /\ IF S = {}
                   THEN \* an account event that answers nothing outstanding: a second answer / a phantom
                        /\ orders' = [orders EXCEPT ![c] = After(@, k)]
@@ -85,62 +130,110 @@ TProcess == /\ Log[l].a = "Process"
                           \* the answer must come back in the name of the exchange the request went to
                           \* (the event's own stamp and the exchange inside the order key it carries: both)
                           /\ Note(IF x = r.x /\ Log[l].key_x = r.x THEN {} ELSE {"wrong_exchange"})
-MarketUp(r, x) == x \in DOMAIN r.market /\ r.market[x]
-ConnOf(r) == [x \in EXCH |-> IF x \in DOMAIN r.conn /\ r.conn[x] THEN "up" ELSE "down"]
-TState == /\ Log[l].a = "State"
+Up(m, x) == x \in DOMAIN m /\ m[x]
+ConnOf(r) == [x \in EXCH |-> IF Up(r.conn, x) THEN "up" ELSE "down"]
+MktOf(r) == [x \in EXCH |-> IF Up(r.market, x) THEN "up" ELSE "down"]
+TState == /\ Log[l].a = "State" /\ Keep
           /\ Note((IF \A c \in CID : orders[c] = (IF c \in DOMAIN Log[l].post THEN Log[l].post[c] ELSE "U")
                    THEN {} ELSE {"engine_view"})
-                  \* C14 in the composition: per-exchange account-link health as the notices and items
-                  \* imply, global connectivity healthy exactly when every link is
-                  \cup (IF conn = ConnOf(Log[l]) /\ (Log[l].global <=> \A x \in EXCH : ConnOf(Log[l])[x] = "up" /\ MarketUp(Log[l], x))
+                  \* C14 in the composition: the engine tracks exactly the exchanges of the run; per exchange the
+                  \* account-link and market-link health the notices and items imply (a data-only exchange's account
+                  \* link: down for ever); global connectivity healthy exactly when every link of every tracked
+                  \* exchange is
+                  \cup (IF /\ DOMAIN Log[l].conn = present /\ DOMAIN Log[l].market = present
+                           /\ conn = ConnOf(Log[l]) /\ mkt = MktOf(Log[l])
+                           /\ (Log[l].global <=> \A x \in present : Up(Log[l].conn, x) /\ Up(Log[l].market, x))
                         THEN {} ELSE {"conn_view"}))
           \* adopt the observed view so that one divergence is reported once
           /\ orders' = [c \in CID |-> IF c \in DOMAIN Log[l].post THEN Log[l].post[c] ELSE "U"]
           /\ conn' = ConnOf(Log[l])
-          /\ UNCHANGED <<home, chan, pending, feed, sends, answered, link>>
-TQuiescent == /\ Log[l].a = "Quiescent"
-              /\ Note((IF ChanSet = {} /\ pending = {} THEN {} ELSE {"request_never_answered"})
-                      \cup (IF \A c \in CID : ~InFlight(c) THEN {} ELSE {"in_flight_never_resolved"}))
+          /\ mkt' = MktOf(Log[l])
+          /\ UNCHANGED <<home, chan, pending, feed, sends, answered, link, mlink, mk, calls>>
+\* a manager that was handed a request for a key that is not its own: a request addressed to another
+\* exchange reached it (Routed) - and that request, reported as sent, is never answered; a manager that
+\* stopped serving for any other reason can never answer (fairness of MgrAccept)
+MgrTags == IF Log[l].foreign # <<>> THEN {"wrong_exchange", "request_never_answered"}
+           ELSE IF Log[l].down # <<>> THEN {"manager_down"} ELSE {}
+TQuiescent == /\ Log[l].a = "Quiescent" /\ Keep
+              /\ Note(MgrTags \cup (IF ChanSet = {} /\ pending = {} THEN {} ELSE {"request_never_answered"})
+                              \cup (IF \A c \in CID : ~InFlight(c) THEN {} ELSE {"in_flight_never_resolved"}))
               /\ UNCHANGED vars
+TManagers == /\ Log[l].a = "Managers" /\ Keep
+             /\ Note(MgrTags)
+             /\ UNCHANGED vars
 
 \* a new run of the real system starts
 TReset == /\ Log[l].a = "Reset"
           /\ orders' = [c \in CID |-> "U"] /\ home' = [c \in CID |-> NoExch]
-          /\ chan' = [x \in EXCH |-> <<>>] /\ pending' = {} /\ feed' = <<>>
+          /\ chan' = [x \in TRADED |-> <<>>] /\ pending' = {} /\ feed' = <<>>
           /\ sends' = [c \in CID |-> 0] /\ answered' = [r \in {} |-> 0]
-          /\ link' = [x \in EXCH |-> "connecting"] /\ conn' = [x \in EXCH |-> "down"]
+          /\ link' = [x \in TRADED |-> "connecting"] /\ conn' = [x \in EXCH |-> "down"]
+          /\ mlink' = [x \in EXCH |-> "none"] /\ mkt' = [x \in EXCH |-> "down"] /\ mk' = 0 /\ calls' = <<>>
+          /\ present' = SeqSet(Log[l].exch) /\ mnot' = [x \in EXCH |-> 0]
+          /\ SeqSet(Log[l].exch) \subseteq EXCH /\ TRADED \subseteq SeqSet(Log[l].exch)
           /\ UNCHANGED bad
 
 \* an account item of exchange x: (Connect(x) .) EngineProcess
-TItem == /\ Log[l].a = "Item"
+TItem == /\ Log[l].a = "Item" /\ Keep
          /\ LET x == Log[l].x IN
-            /\ KnownX(x)
-            /\ link' = [link EXCEPT ![x] = IF @ = "connecting" THEN "up" ELSE @]
-            /\ conn' = [conn EXCEPT ![x] = "up"]
-            /\ UNCHANGED <<orders, home, chan, pending, feed, sends, answered>>
-            \* a dead link delivers nothing any more
-            /\ Note(IF link[x] = "dead" THEN {"item_from_dead_link"} ELSE {})
+            IF ~KnownX(x)
+            THEN \* an account item in the name of an exchange that has no account link
+                 UNCHANGED vars /\ Note({"wrong_exchange"})
+            ELSE /\ link' = [link EXCEPT ![x] = IF @ = "connecting" THEN "up" ELSE @]
+                 /\ conn' = [conn EXCEPT ![x] = "up"]
+                 /\ calls' = <<>>
+                 /\ UNCHANGED <<orders, home, chan, pending, feed, sends, answered, mlink, mkt, mk>>
+                 \* a dead link delivers nothing any more
+                 /\ Note(IF link[x] = "dead" THEN {"item_from_dead_link"} ELSE {})
+
+\* the market stream delivered an item of exchange x (traded or data-only): MarketItem(x) . EngineProcess
+TMktItem == /\ Log[l].a = "MktItem" /\ Keep
+            /\ LET x == Log[l].x IN
+               IF x \notin present
+               THEN UNCHANGED vars /\ Note({"market_unknown_exchange"})
+               ELSE /\ mlink' = [mlink EXCEPT ![x] = "up"]
+                    /\ mkt' = [mkt EXCEPT ![x] = "up"]
+                    /\ calls' = Owed(Ev("mitem", "", "", x))
+                    /\ UNCHANGED <<orders, home, chan, pending, feed, sends, answered, link, conn, mk>>
+                    /\ Note({})
+\* ... a disconnect notice naming x: MarketNotice(x) . EngineProcess.  The on-disconnect strategy must
+\* have been invoked exactly once, for x - whether or not x has an execution link
+TMktDown == /\ Log[l].a = "MktDown" /\ UNCHANGED present
+            /\ LET x == Log[l].x IN
+               IF x \notin present
+               THEN UNCHANGED <<vars, mnot>> /\ Note({"market_unknown_exchange"})
+               ELSE /\ mlink' = [mlink EXCEPT ![x] = "down"]
+                    /\ mkt' = [mkt EXCEPT ![x] = "down"]
+                    /\ calls' = Owed(Ev("mnotice", "", "", x))
+                    /\ mnot' = [mnot EXCEPT ![x] = @ + 1]
+                    /\ UNCHANGED <<orders, home, chan, pending, feed, sends, answered, link, conn, mk>>
+                    /\ Note(IF Log[l].calls = calls' THEN {} ELSE {"on_disconnect_calls"})
 
 \* the driver killed an exchange's task (only once that link was quiet): KillLink(x) . EngineProcess,
 \* as one step.  Exactly one disconnect notice may reach the engine per killed link, naming THAT
 \* exchange; the engine's view (next State line) must then show that account link - and global
-\* connectivity - down, the other exchange's link untouched.
-TLinkDown == /\ Log[l].a = "LinkDown"
+\* connectivity - down, the other exchange's link untouched; on-disconnect invoked once, for x.
+TLinkDown == /\ Log[l].a = "LinkDown" /\ Keep
              /\ LET x == Log[l].x IN
                 IF KnownX(x) /\ link[x] = "up"
                 THEN /\ link' = [link EXCEPT ![x] = "dead"]
                      /\ conn' = [conn EXCEPT ![x] = "down"]
-                     /\ UNCHANGED <<orders, home, chan, pending, feed, sends, answered>>
-                     /\ Note(IF Quiet(x) THEN {} ELSE {"link_down_outside_model"})
-                ELSE \* a second notice for one death, or a notice naming an exchange that is not there
+                     /\ calls' = Owed(Ev("notice", "", "", x))
+                     /\ UNCHANGED <<orders, home, chan, pending, feed, sends, answered, mlink, mkt, mk>>
+                     /\ Note((IF Quiet(x) THEN {} ELSE {"link_down_outside_model"})
+                             \cup (IF Log[l].calls = calls' THEN {} ELSE {"on_disconnect_calls"}))
+                ELSE \* a second notice for one death, or a notice naming an exchange that has no account link
                      /\ UNCHANGED vars /\ Note({"link_down_notice"})
-TLinkDownCount == /\ Log[l].a = "LinkDownCount"
-                  /\ LET killed == {Log[l].killed[j] : j \in 1..Len(Log[l].killed)} IN
-                     Note(IF \A x \in EXCH : (x \in killed) <=> (link[x] = "dead") THEN {} ELSE {"link_down_count"})
+TLinkDownCount == /\ Log[l].a = "LinkDownCount" /\ Keep
+                  /\ LET killed == SeqSet(Log[l].killed)
+                         sent(x) == IF x \in DOMAIN Log[l].mnotices THEN Log[l].mnotices[x] ELSE 0 IN
+                     Note((IF \A x \in TRADED : (x \in killed) <=> (link[x] = "dead") THEN {} ELSE {"link_down_count"})
+                          \cup (IF \A x \in EXCH : mnot[x] = sent(x) THEN {} ELSE {"market_notice_count"}))
                   /\ UNCHANGED vars
 
 TNext == /\ l <= Len(Log) /\ l' = l + 1
-         /\ (TReset \/ TSendOpen \/ TSendCancel \/ TItem \/ TProcess \/ TState \/ TQuiescent \/ TLinkDown \/ TLinkDownCount)
+         /\ (TReset \/ TSendOpen \/ TSendCancel \/ TSendFail \/ TItem \/ TProcess \/ TState \/ TQuiescent \/ TManagers
+               \/ TMktItem \/ TMktDown \/ TLinkDown \/ TLinkDownCount)
 TSpec == TInit /\ [][TNext]_tvars
 
 Done == l = Len(Log) + 1 => PrintT(<<"TRACE_END", ToJson(bad)>>)
